@@ -42,6 +42,17 @@ pub struct DotSpec {
 pub enum Wire {
     Json,
     Cbor,
+    /// through `serde_json::Value` (`to_value` / `from_value`): another Serializer/Deserializer
+    JsonValue,
+    /// `to_string` / `from_str`
+    JsonStr,
+}
+
+impl Wire {
+    /// the byte format the document is in
+    pub fn is_cbor(&self) -> bool {
+        matches!(self, Wire::Cbor)
+    }
 }
 
 pub enum Meth<'a, E> {
@@ -135,10 +146,14 @@ pub trait Flavour: Sized + 'static {
     fn g_scc(g: &Self::Graph) -> Option<Vec<Vec<Self::Node>>>;
     fn g_to_dot(g: &Self::Graph) -> String;
     fn g_to_dot_attr(g: &Self::Graph, spec: DotSpec) -> Option<String>;
+    /// `to_dot_with_attr` whose node and edge callbacks are the harness's own (they return no
+    /// attributes); None where the flavour has no such export
+    fn g_to_dot_cb(g: &Self::Graph, ncb: &dyn Fn(&Self::Node), ecb: &dyn Fn(&Self::Node, &Self::Node, &EVal)) -> Option<String>;
     fn g_ser(g: &Self::Graph, wire: Wire) -> Result<Vec<u8>, String>;
     fn g_ser_writer(g: &Self::Graph, wire: Wire, w: &mut dyn Write) -> Result<(), String>;
     fn g_de(bytes: &[u8], wire: Wire) -> Result<Self::Graph, String>;
     fn g_de_reader(r: &mut dyn Read, wire: Wire) -> Result<Self::Graph, String>;
+    fn alt_round_trip(n: usize, edges: &[(usize, usize)], wire: Wire) -> Result<(String, String), String>;
 }
 
 pub trait SyncFlavour: Flavour
@@ -287,25 +302,85 @@ macro_rules! common_graph_items {
             match wire {
                 Wire::Json => serde_json::to_vec(g).map_err(|e| e.to_string()),
                 Wire::Cbor => serde_cbor::to_vec(g).map_err(|e| e.to_string()),
+                Wire::JsonValue => {
+                    let v = serde_json::to_value(g).map_err(|e| e.to_string())?;
+                    serde_json::to_vec(&v).map_err(|e| e.to_string())
+                }
+                Wire::JsonStr => serde_json::to_string(g).map(|s| s.into_bytes()).map_err(|e| e.to_string()),
             }
         }
         fn g_ser_writer(g: &Self::Graph, wire: Wire, w: &mut dyn Write) -> Result<(), String> {
             match wire {
-                Wire::Json => serde_json::to_writer(w, g).map_err(|e| e.to_string()),
                 Wire::Cbor => serde_cbor::to_writer(w, g).map_err(|e| e.to_string()),
+                _ => serde_json::to_writer(w, g).map_err(|e| e.to_string()),
             }
         }
         fn g_de(bytes: &[u8], wire: Wire) -> Result<Self::Graph, String> {
             match wire {
                 Wire::Json => serde_json::from_slice(bytes).map_err(|e| e.to_string()),
                 Wire::Cbor => serde_cbor::from_slice(bytes).map_err(|e| e.to_string()),
+                Wire::JsonValue => {
+                    let v: serde_json::Value = serde_json::from_slice(bytes).map_err(|e| e.to_string())?;
+                    serde_json::from_value(v).map_err(|e| e.to_string())
+                }
+                Wire::JsonStr => {
+                    let s = std::str::from_utf8(bytes).map_err(|e| e.to_string())?;
+                    serde_json::from_str(s).map_err(|e| e.to_string())
+                }
             }
         }
         fn g_de_reader(r: &mut dyn Read, wire: Wire) -> Result<Self::Graph, String> {
             match wire {
-                Wire::Json => serde_json::from_reader(r).map_err(|e| e.to_string()),
                 Wire::Cbor => serde_cbor::from_reader(r).map_err(|e| e.to_string()),
+                _ => serde_json::from_reader(r).map_err(|e| e.to_string()),
             }
+        }
+        /// round trip of a graph with `String` keys, `()` node values and `()` edge values (so
+        /// parallel edges are indistinguishable): description before and after
+        fn alt_round_trip(n: usize, edges: &[(usize, usize)], wire: Wire) -> Result<(String, String), String> {
+            type G = gdsl::$m::Graph<String, (), ()>;
+            let key = |k: usize| format!("k{k}");
+            let nodes: Vec<gdsl::$m::Node<String, (), ()>> = (0..n).map(|k| gdsl::$m::Node::new(key(k), ())).collect();
+            for (u, v) in edges {
+                nodes[*u].connect(&nodes[*v], ());
+            }
+            let mut g: G = gdsl::$m::Graph::new();
+            for x in &nodes {
+                g.insert(x.clone());
+            }
+            let describe = |g: &G| -> String {
+                let mut d: Vec<(String, Vec<String>)> = g
+                    .iter()
+                    .map(|(k, node)| {
+                        let mut out: Vec<String> = Vec::new();
+                        for gdsl::$m::Edge(_, b, _) in node {
+                            out.push(b.key().clone());
+                        }
+                        if !Self::DIRECTED {
+                            // undirected: the multiset of incident edges is what round-trips
+                            out.sort();
+                        }
+                        (k.clone(), out)
+                    })
+                    .collect();
+                d.sort();
+                format!("{d:?}")
+            };
+            let before = describe(&g);
+            let bytes = match wire {
+                Wire::Cbor => serde_cbor::to_vec(&g).map_err(|e| e.to_string())?,
+                Wire::JsonValue => serde_json::to_vec(&serde_json::to_value(&g).map_err(|e| e.to_string())?).map_err(|e| e.to_string())?,
+                _ => serde_json::to_vec(&g).map_err(|e| e.to_string())?,
+            };
+            let g2: G = match wire {
+                Wire::Cbor => serde_cbor::from_slice(&bytes).map_err(|e| e.to_string())?,
+                Wire::JsonValue => {
+                    let v: serde_json::Value = serde_json::from_slice(&bytes).map_err(|e| e.to_string())?;
+                    serde_json::from_value(v).map_err(|e| e.to_string())?
+                }
+                _ => serde_json::from_slice(&bytes).map_err(|e| e.to_string())?,
+            };
+            Ok((before, describe(&g2)))
         }
     };
 }
@@ -317,6 +392,19 @@ macro_rules! dot_attr_impl {
                 &|_| dot_g(spec),
                 &|n| dot_n(spec, *n.key(), n.value().prio),
                 &|u, v, e| dot_e(spec, *u.key(), *v.key(), e.0),
+            ))
+        }
+        fn g_to_dot_cb(g: &Self::Graph, ncb: &dyn Fn(&Self::Node), ecb: &dyn Fn(&Self::Node, &Self::Node, &EVal)) -> Option<String> {
+            Some(g.to_dot_with_attr(
+                &|_| None,
+                &|n| {
+                    ncb(n);
+                    None
+                },
+                &|u, v, e| {
+                    ecb(u, v, e);
+                    None
+                },
             ))
         }
     };
@@ -854,6 +942,9 @@ macro_rules! undirected_dot_attr {
     };
     ($m:ident, no) => {
         fn g_to_dot_attr(_g: &Self::Graph, _spec: DotSpec) -> Option<String> {
+            None
+        }
+        fn g_to_dot_cb(_g: &Self::Graph, _ncb: &dyn Fn(&Self::Node), _ecb: &dyn Fn(&Self::Node, &Self::Node, &EVal)) -> Option<String> {
             None
         }
     };
